@@ -188,3 +188,50 @@ Print Assumptions bit_text.
 Theorem inter_never_leaves_a_gap : forall s, inter (inter s) = inter s.
 Proof. exact inter_idempotent. Qed.
 Print Assumptions inter_never_leaves_a_gap.
+
+(** * the round trip with the quote forms inside (proofs/RoundTripQ.v)
+    The class of the structural round trip extended by 'x `x ,x ,@x at ANY nesting: what the printer writes for such an
+    expression reads back as the expression -- as a whole text and in every position where what follows the next gap
+    is neither '[' nor '@' (which would continue the expression, see above).  [need e] is the fuel the reader model
+    needs: three levels per atom, four per prefix or bracket pair; it is at most four times the length of the text. *)
+From WalModel.proofs Require RoundTripQ.
+
+Theorem printed_expression_with_quote_forms_reads_back : forall e, RoundTripQ.simpleq e = true ->
+  wal_str0 e = Some (RoundTripQ.showq e) /\ read_sexpr (RoundTripQ.showq e) = ROk e EmptyString.
+Proof. exact RoundTripQ.print_read_roundtrip_q. Qed.
+Print Assumptions printed_expression_with_quote_forms_reads_back.
+
+Theorem printed_expression_with_quote_forms_reads_back_in_context : forall n e,
+  (RoundTripQ.vsizeq e <= n)%nat -> RoundTripQ.simpleq e = true ->
+  forall f rest, (RoundTripQ.need e <= f)%nat -> delim rest -> plain_next (inter rest) ->
+  p_sexpr f (RoundTripQ.showq e ++ rest) = ROk e (inter rest).
+Proof. exact RoundTripQ.roundtripq_in_context. Qed.
+Print Assumptions printed_expression_with_quote_forms_reads_back_in_context.
+
+Theorem the_class_with_quote_forms_is : forall e, RoundTripQ.simpleq e =
+  match e with
+  | VInt z => (slen (numeral 10 (Z.abs z)) <=? 4000)%Z
+  | VStr s => sall plain_char s
+  | VSym n None => plain_sym n
+  | VBool _ => true
+  | VOp _ => true
+  | VList true [VOp OQuote; x] => RoundTripQ.simpleq x
+  | VList true [VOp OQuasiquote; x] => RoundTripQ.simpleq x
+  | VList true l => forallb RoundTripQ.simpleq l && head_ok l
+  | VUnq x => RoundTripQ.simpleq x
+  | VUnqS x => RoundTripQ.simpleq x
+  | _ => false
+  end.
+Proof. intros e. destruct e; reflexivity. Qed.
+Print Assumptions the_class_with_quote_forms_is.
+
+Theorem fuel_is_linear_in_the_text : forall e, RoundTripQ.simpleq e = true ->
+  (RoundTripQ.need e <= 4 * String.length (RoundTripQ.showq e))%nat.
+Proof. intros e H. exact (RoundTripQ.need_length (RoundTripQ.vsizeq e) e (le_n _) H). Qed.
+Print Assumptions fuel_is_linear_in_the_text.
+
+Example nested_prefixes :
+  let e := WL [VOp OQuasiquote; WL [VSym "a" None; VUnq (VSym "b" None); VUnqS (WL [VOp OQuote; WL [VInt 1; VStr "s"]]);
+                                    WL [VOp OQuote; WL [VOp OQuote; VSym "c" None]]]] in
+  RoundTripQ.simpleq e = true /\ RoundTripQ.showq e = "`(a ,b ,@'(1 ""s"") ''c)" /\ read_sexpr "`(a ,b ,@'(1 ""s"") ''c)" = ROk e "".
+Proof. split; [reflexivity|]. split; [reflexivity|]. vm_compute. reflexivity. Qed.
